@@ -14,8 +14,9 @@ import (
 
 // VerifC18Provider wraps the real http_endpoint provider; polls are triggered by the caller instead of the scheduler.
 type VerifC18Provider struct {
-	p   *provider
-	eps map[string]*ruleSetEndpoint
+	p    *provider
+	eps  map[string]*ruleSetEndpoint
+	list []*ruleSetEndpoint
 }
 
 // VerifC18New builds the provider through newProvider from the given provider configuration and decodes the
@@ -44,13 +45,21 @@ func VerifC18New(
 		eps[ep.ID()] = ep
 	}
 
-	return &VerifC18Provider{p: p, eps: eps}, nil
+	return &VerifC18Provider{p: p, eps: eps, list: c.Endpoints}, nil
 }
 
 // Poll is one run of the scheduled job for the endpoint with the given url.
 func (v *VerifC18Provider) Poll(ctx context.Context, url string) error {
 	return v.p.watchChanges(ctx, v.eps[url])
 }
+
+// PollIdx is one run of the scheduled job for the idx-th configured endpoint.
+func (v *VerifC18Provider) PollIdx(ctx context.Context, idx int) error {
+	return v.p.watchChanges(ctx, v.list[idx])
+}
+
+// EndpointID is the identifier of the idx-th configured endpoint.
+func (v *VerifC18Provider) EndpointID(idx int) string { return v.list[idx].ID() }
 
 // States returns a copy of the content hashes remembered per endpoint.
 func (v *VerifC18Provider) States() map[string][]byte {
